@@ -105,6 +105,10 @@ func (r *runningRoutine[K, V]) execute(
 		select {
 		case <-ctx.Done():
 			err = context.Canceled
+			// The previous instance may still be running: wait for it before
+			// closing exitedCh below, since later instances chain on exitedCh
+			// to know that all earlier instances have returned.
+			<-waitCh
 		case <-waitCh:
 		}
 	} else if err = ctx.Err(); err != nil {
